@@ -834,11 +834,14 @@ impl BuiltInFunction {
                             .with_context(|| format!("`{i128}` cannot be made into a int"))?,
                     ),
                     Primitive::Byte(u8) => Primitive::Int(*u8 as i32),
-                    Primitive::Float(f64) => Primitive::Int(
-                        (*f64 as i64)
-                            .try_into()
-                            .with_context(|| format!("`{f64}` cannot be made into a int"))?,
-                    ),
+                    Primitive::Float(f64) => {
+                        let truncated = f64.trunc();
+                        // also rejects NaN, for which every comparison is false
+                        if !(truncated >= i32::MIN as f64 && truncated <= i32::MAX as f64) {
+                            bail!("`{f64}` cannot be made into a int")
+                        }
+                        Primitive::Int(truncated as i32)
+                    }
                     bad => unreachable!("{bad}"),
                 };
 
@@ -853,7 +856,14 @@ impl BuiltInFunction {
                     Primitive::Int(i32) => Primitive::BigInt(*i32 as i128),
                     Primitive::BigInt(i128) => Primitive::BigInt(*i128),
                     Primitive::Byte(u8) => Primitive::BigInt(*u8 as i128),
-                    Primitive::Float(f64) => Primitive::BigInt((*f64 as i64).into()),
+                    Primitive::Float(f64) => {
+                        let truncated = f64.trunc();
+                        // i128 spans [-2^127, 2^127); also rejects NaN, for which every comparison is false
+                        if !(truncated >= i128::MIN as f64 && truncated < -(i128::MIN as f64)) {
+                            bail!("`{f64}` cannot be made into a bigint")
+                        }
+                        Primitive::BigInt(truncated as i128)
+                    }
                     bad => unreachable!("{bad}"),
                 };
 
@@ -874,11 +884,14 @@ impl BuiltInFunction {
                             .with_context(|| format!("`{i128}` cannot be made into a byte"))?,
                     ),
                     Primitive::Byte(u8) => Primitive::Byte(*u8),
-                    Primitive::Float(f64) => Primitive::Byte(
-                        (*f64 as i64)
-                            .try_into()
-                            .with_context(|| format!("`{f64}` cannot be made into a byte"))?,
-                    ),
+                    Primitive::Float(f64) => {
+                        let truncated = f64.trunc();
+                        // also rejects NaN, for which every comparison is false
+                        if !(truncated >= u8::MIN as f64 && truncated <= u8::MAX as f64) {
+                            bail!("`{f64}` cannot be made into a byte")
+                        }
+                        Primitive::Byte(truncated as u8)
+                    }
                     bad => unreachable!("{bad}"),
                 };
 
